@@ -642,7 +642,7 @@ where
         for at in 0..(bytes.len() + 3) {
             let rd = ChunkReader { data: &bytes, pos: 0, chunk: 1, interrupt_at: Some(at), calls: 0 };
             ctx.report.count("io_interrupted");
-            match serde_amqp::from_reader::<T>(rd) {
+            match std::panic::catch_unwind(std::panic::AssertUnwindSafe(|| serde_amqp::from_reader::<T>(rd))).unwrap_or_else(|_| Err(serde::de::Error::custom("the stream decoder panicked / looped at the end of the input"))) {
                 Ok(y) if same(&y, x) => {}
                 r => {
                     violation(ctx, &format!("typed-io-vs-slice:interrupted-read:{}", rust), format!("from_reader (one byte at a time, read call {} interrupted once) gives {:?} for the encoding {} of {:?}", at, r.map(|y| format!("{:?}", y)), hex(&bytes), x), replay.clone());
@@ -653,7 +653,7 @@ where
     }
     for chunk in [1usize, 3, 64] {
         let rd = ChunkReader { data: &bytes, pos: 0, chunk, interrupt_at: None, calls: 0 };
-        match serde_amqp::from_reader::<T>(rd) {
+        match std::panic::catch_unwind(std::panic::AssertUnwindSafe(|| serde_amqp::from_reader::<T>(rd))).unwrap_or_else(|_| Err(serde::de::Error::custom("the stream decoder panicked / looped at the end of the input"))) {
             Ok(y) if same(&y, x) => {}
             r => {
                 violation(ctx, &format!("typed-io-vs-slice:{}", rust), format!("from_reader (chunks of {}) gives {:?} for the encoding of {:?}", chunk, r.map(|y| format!("{:?}", y)), x), replay.clone());
@@ -793,6 +793,12 @@ impl<'a> std::io::Read for ChunkReader<'a> {
             return Err(std::io::Error::new(std::io::ErrorKind::Interrupted, "EINTR"));
         }
         let n = buf.len().min(self.chunk).min(self.data.len() - self.pos);
+        if n == 0 && !buf.is_empty() {
+            self.calls += 1_000_000;
+            if self.calls > 1_000_000_000 {
+                panic!("the decoder asked the stream for more {} times after its end: it loops without consuming input", self.calls / 1_000_000);
+            }
+        }
         buf[..n].copy_from_slice(&self.data[self.pos..self.pos + n]);
         self.pos += n;
         Ok(n)
